@@ -51,3 +51,10 @@ pub open spec fn group_mirrors_mls(w: World, g: GroupId) -> bool {
     w.groups.contains_key(g) && w.mls.contains_key(g) && record_mirrors(w.groups[g], w.mls[g])
     && w.relays.contains_key(g) && w.relays[g] == ext_relays(w.mls[g].ext)
 }
+
+// C06: a refused event leaves nothing behind but (at most) its own failure record
+pub open spec fn only_failure_record(a: World, b: World, id: EventId) -> bool {
+    b == (World { processed: b.processed, ..a })
+    && (b.processed == a.processed
+        || (b.processed.contains_key(id) && b.processed == a.processed.insert(id, b.processed[id]) && b.processed[id].state == ProcessedMessageState::Failed))
+}
